@@ -98,6 +98,41 @@ def dTie : Desc :=
    { id := "c", zone := "y", tokens := [3, 4294967294] }]
 example : ZoneRing { rf := 2, zoneAware := true } C01.opWrite dTie := ⟨by decide, rfl, by decide, by decide⟩
 
+/-! ### No inconsistent-token errors (link to C05: every reachable descriptor is well-formed) -/
+
+/-- For EVERY descriptor, configuration and instance id, `GetTokenRangesForInstance` never takes one of its
+`ErrInconsistentTokensInfo` returns (a token of the zone's token list missing from `ringInstanceByToken`):
+both are built from the same descriptor. -/
+theorem ranges_never_inconsistent (d : Desc) (za : Bool) (rf : Nat) (id : String) :
+    rangesForInstance d za rf id ≠ .error .inconsistent ∧ rangesForInstance d za rf id ≠ .error .panic :=
+  rangesForInstanceWith_consistent instRangesOf d za rf id
+
+/-- On a well-formed ring (`C01.WFRing`: unique ids, no token registered twice — what C05 proves of every
+reachable descriptor), zone-aware with `rf = #zones`, for a registered instance whose zone is set and holds
+tokens, `GetTokenRangesForInstance` returns ranges: no error return is taken at all. -/
+theorem ranges_total_on_wf (d : Desc) (hwf : C01.WFRing d) (inst : Inst) (hi : inst ∈ d)
+    (hz : inst.zone ≠ "") (hne : zoneTokens d inst.zone ≠ []) :
+    ∃ tr, rangesForInstance d true (zonesOf d).length inst.id = .ok tr :=
+  rangesForInstance_ok_on_wf d hwf inst hi hz hne
+
+example : C01.WFRing dTie ∧ zoneTokens dTie "x" ≠ [] := by
+  refine ⟨by decide, ?_⟩
+  simp [zoneTokens, tokenInsts, dTie, List.mergeSort, List.MergeSort.Internal.splitInTwo]
+
+/-- `NewPartitionRing` (`buildRingTokenPartitionLookups`) never fails with `ErrInconsistentTokensInfo`, for
+EVERY partition descriptor … -/
+theorem partition_ring_never_inconsistent (d : PDesc) : ∃ l, buildLookups d = .ok l :=
+  buildLookups_ok d
+
+/-- … and on a well-formed one the slices it builds are the `(token, partition, active)` list that
+`ActivePartitionForKey` walks; `GetTokenRangesForPartition` then never returns `ErrInconsistentTokensInfo`
+for an existing partition, and `ActivePartitionForKey` has the single error "no active partition". -/
+theorem partition_ranges_total_on_wf (d : PDesc) (h : WFP d) :
+    buildLookups d = .ok (d.tokenParts.map fun x => (x.1, x.2.id, x.2.isActive)) ∧
+    (∀ p ∈ d.parts, rangesForPartition d p.id ≠ .error .inconsistent ∧ rangesForPartition d p.id ≠ .error .panic) ∧
+    (∀ k e, activeFor d k = .error e → e = .noActivePartition) :=
+  ⟨buildLookups_eq d h, fun p hp => rangesForPartition_consistent d h p hp, fun k e he => activeFor_error_class d k e he⟩
+
 /-- **`GetTokenRangesForInstance` is exact** on every well-formed zone-aware ring with `rf = #zones`:
 it succeeds whenever the instance's zone holds a token, and the reported ranges contain a key exactly
 when the lookup inside the instance's zone returns the instance — including key 0, tokens 0, 1,
